@@ -127,7 +127,10 @@ class ConnMan:
             raise NotImplementedError('Bus connectivity update during TDS is not supported yet!')
 
         # --- action ---
-        offbus_idx = [self.system.Bus.idx.v[i] for i in np.nonzero(self.changes["off"])[0]]
+        # Act on every bus that is offline now. `changes["off"]` only holds the buses switched off by the
+        # latest `Bus.set()`/`Bus.alter()` call, so buses switched off by earlier calls since the last
+        # update would keep their devices online.
+        offbus_idx = [self.system.Bus.idx.v[i] for i in np.nonzero(np.asarray(self.system.Bus.u.v) == 0)[0]]
 
         # skip if no bus is turned off
         if len(offbus_idx) == 0:
@@ -143,8 +146,9 @@ class ConnMan:
                 grp_devs = self.system.__dict__[grp_name].find_idx(keys=src, values=offbus_idx,
                                                                    allow_none=True, allow_all=True,
                                                                    default=None)
-                grp_devs_flat = list_flatten(grp_devs)
-                if grp_devs_flat != [None]:
+                # an offline bus without a device of this group gives `None`; drop it
+                grp_devs_flat = [dev for dev in list_flatten(grp_devs) if dev is not None]
+                if len(grp_devs_flat) > 0:
                     devices.append(grp_devs_flat)
 
             devices_flat = list_flatten(devices)
